@@ -30,6 +30,7 @@ var Assumptions = []string{
 	"the semantics of the btcd/btcwallet/lnd functions used as primitives (CheckBlockHeaderContext, CheckBlockHeaderSanity, CheckBlockSanity, ValidateWitnessCommitment, MakeHeaderForFilter, ValidateCFHeader, DependencySort, bbolt transactions, lnd queue) are as documented",
 	"rule tables (which guard protects which effect, which mutex protects which field) were confirmed by reading the pinned tree; they state necessary conditions of the property, not the behaviour",
 	"no unsafe / reflection-based calls / go:linkname in the module packages (rule T0, evaluated on every run)",
+	"inputs exist: a parameter, range element, received value, call / assertion / lookup result (or a field reached from one, not from the method's receiver; never an error) that a guard clause finds nil or missing is taken to be present - the paths behind such guard clauses (logging, an error value, a refusal sent back, then return or next round) are not explored; the pinned tree dereferences these values unconditionally",
 }
 
 // Run evaluates a property's table, preceded by the T0 trust rule.
